@@ -254,7 +254,7 @@ def as_dict_call(n):
     return None
 
 
-def inline_locals(fn_node, e, depth: int = 3):
+def inline_locals(fn_node, e, depth: int = 3, kinds=(ast.Call, ast.Attribute, ast.Subscript)):
     """a copy of expression ``e`` with every local that is bound exactly once (a plain `name = <call / attribute / subscript chain>`,
     not a parameter, not a loop variable) replaced by its value — `t = a.f(); v = t.g()` reads as `a.f().g()` — to ``depth`` hops"""
     import copy as _copy
@@ -266,7 +266,7 @@ def inline_locals(fn_node, e, depth: int = 3):
     defs = {}
     for n in ast.walk(fn_node):
         if isinstance(n, ast.Assign) and len(n.targets) == 1 and isinstance(n.targets[0], ast.Name) and stores.get(n.targets[0].id) == 1 and \
-                n.targets[0].id not in params and isinstance(n.value, (ast.Call, ast.Attribute, ast.Subscript)):
+                n.targets[0].id not in params and isinstance(n.value, kinds):
             defs[n.targets[0].id] = n.value
 
     class T(ast.NodeTransformer):
